@@ -24,6 +24,10 @@ type Interp struct {
 	VFS map[string]*StructV
 	// Opened records every path the generator tried to open, in order.
 	Opened []string
+	// ReverseMaps makes `range` over a map visit the keys in descending
+	// instead of ascending order: two folds that differ only in this flag
+	// expose any dependence of the result on map iteration order.
+	ReverseMaps bool
 }
 
 func New(p *load.Prog) *Interp {
@@ -36,6 +40,10 @@ type frame struct {
 	pkg    *packages.Package
 	ret    []Value
 	named  []*Cell
+	// labelled control flow: the label a pending break/continue names, and the
+	// label of the statement about to be entered
+	branchLabel string
+	nextLabel   string
 }
 
 func (f *frame) lookup(o types.Object) *Cell {
@@ -301,7 +309,14 @@ func (in *Interp) exec(fr *frame, s ast.Stmt) ctl {
 			return in.exec(fr, s.Else)
 		}
 		return ctlNone
+	case *ast.LabeledStmt:
+		fr.nextLabel = s.Label.Name
+		c := in.exec(fr, s.Stmt)
+		fr.nextLabel = ""
+		return c
 	case *ast.ForStmt:
+		myLabel := fr.nextLabel
+		fr.nextLabel = ""
 		if s.Init != nil {
 			in.exec(fr, s.Init)
 		}
@@ -311,6 +326,12 @@ func (in *Interp) exec(fr *frame, s ast.Stmt) ctl {
 				break
 			}
 			c := in.execBlock(fr, s.Body)
+			if (c == ctlBreak || c == ctlContinue) && fr.branchLabel != "" {
+				if fr.branchLabel != myLabel {
+					return c // aimed at an enclosing statement
+				}
+				fr.branchLabel = ""
+			}
 			if c == ctlBreak {
 				break
 			}
@@ -328,7 +349,10 @@ func (in *Interp) exec(fr *frame, s ast.Stmt) ctl {
 		return in.execSwitch(fr, s)
 	case *ast.BranchStmt:
 		if s.Label != nil {
-			panic(evalErr("labelled branch unsupported at %s", in.pos(s.Pos())))
+			if s.Tok != token.BREAK && s.Tok != token.CONTINUE {
+				panic(evalErr("goto unsupported at %s", in.pos(s.Pos())))
+			}
+			fr.branchLabel = s.Label.Name
 		}
 		switch s.Tok {
 		case token.BREAK:
@@ -365,9 +389,17 @@ func (in *Interp) execRange(fr *frame, s *ast.RangeStmt) ctl {
 			in.lvalue(fr, e).set(copyVal(v))
 		}
 	}
+	myLabel := fr.nextLabel
+	fr.nextLabel = ""
 	body := func() (stop bool, c ctl) {
 		in.burn(s)
 		c = in.execBlock(fr, s.Body)
+		if (c == ctlBreak || c == ctlContinue) && fr.branchLabel != "" {
+			if fr.branchLabel != myLabel {
+				return true, c // aimed at an enclosing statement
+			}
+			fr.branchLabel = ""
+		}
 		if c == ctlBreak {
 			return true, ctlNone
 		}
@@ -389,7 +421,13 @@ func (in *Interp) execRange(fr *frame, s *ast.RangeStmt) ctl {
 			}
 		}
 	case *MapV:
-		for _, k := range xv.Keys() {
+		keys := xv.Keys()
+		if in.ReverseMaps {
+			for i, j := 0, len(keys)-1; i < j; i, j = i+1, j-1 {
+				keys[i], keys[j] = keys[j], keys[i]
+			}
+		}
+		for _, k := range keys {
 			c, ok := xv.M[k]
 			if !ok {
 				continue
@@ -431,6 +469,8 @@ func (in *Interp) execRange(fr *frame, s *ast.RangeStmt) ctl {
 }
 
 func (in *Interp) execSwitch(fr *frame, s *ast.SwitchStmt) ctl {
+	myLabel := fr.nextLabel
+	fr.nextLabel = ""
 	if s.Init != nil {
 		in.exec(fr, s.Init)
 	}
@@ -483,6 +523,12 @@ func (in *Interp) execSwitch(fr *frame, s *ast.SwitchStmt) ctl {
 		case ctlFallthrough:
 			continue
 		case ctlBreak:
+			if fr.branchLabel != "" {
+				if fr.branchLabel != myLabel {
+					return c
+				}
+				fr.branchLabel = ""
+			}
 			return ctlNone
 		default:
 			return c
